@@ -1,11 +1,12 @@
 """C08 - cartridge ROM banking follows each controller's register semantics."""
-from engine.driver import run_property, Task
+from engine.driver import run_property, Task, LemmaTask
+import props.wiring as wr
 from props.common import filter_tasks, TRUSTED, BASE_ASSUME
 import props.mem_common as mc
 
 MANIFEST = {
     "level": "proof",
-    "text": "For each controller (none, MBC1, MBC2, MBC3, MBC5) Read and Write are verified against contracts written from the documented register semantics with the number of ROM banks N symbolic (every power of two 2..512, i.e. every declared ROM size at once): Write updates exactly the documented bank registers (MBC1 5+2 bits with 0->1 and mode, MBC2 4 bits via A8 with 0->1, MBC3 7 bits with 0->1, MBC5 9 bits with 0 allowed), reads of 0000-3FFF / 4000-7FFF return the byte of ROM bank (registers mod N), the representation invariant validN (bank fields in range and equal to the documented function of the registers) is preserved by every write, and the assigns clauses never contain a ROM byte (ROM immutability as a frame condition). By induction over validN this covers every sequence of control writes. prepareROM is verified against its contract: the number of 16 KiB pages equals 2<<code for the header ROM size code, and page p holds the image bytes p*0x4000.. in order (loop invariant), linking 'bank' to the bytes of the image.",
+    "text": "For each controller (none, MBC1, MBC2, MBC3, MBC5) Read and Write are verified against contracts written from the documented register semantics with the number of ROM banks N symbolic (every power of two 2..512, i.e. every declared ROM size at once): Write updates exactly the documented bank registers (MBC1 5+2 bits with 0->1 and mode, MBC2 4 bits via A8 with 0->1, MBC3 7 bits with 0->1, MBC5 9 bits with 0 allowed), reads of 0000-3FFF / 4000-7FFF return the byte of ROM bank (registers mod N), the representation invariant validN (bank fields in range and equal to the documented function of the registers) is preserved by every write, and the assigns clauses never contain a ROM byte (ROM immutability as a frame condition). By induction over validN this covers every sequence of control writes. prepareROM is verified against its contract: the number of 16 KiB pages equals 2<<code for the header ROM size code, and page p holds the image bytes p*0x4000.. in order (loop invariant), linking 'bank' to the bytes of the image. Constructors: each of newMBC1/2/3/5 is proved to return its controller in the documented power-on state (ROM bank register 1, upper bits/RAM bank 0, simple mode, RAM disabled) satisfying validN and holding the page slices it was given; newMBC (page builders abstracted) is proved to pick the controller kind that the header type byte documents.",
     "note": "Trusted: go/ssa, engine SSA semantics (z3 arrays for ROM/RAM pages), z3/cvc5. validN is established by newMBC for every image it accepts (C11 proves that). The interface dispatch Mapper.Read/Write -> mbc is C06's decoder obligation.",
     "technique": "function contracts against spec functions + representation invariant + frame conditions on the real go/ssa; z3",
     "design_ref": "DESIGN.md section 4 C08",
@@ -14,7 +15,8 @@ LABELS = {"rom", "lo", "hi", "bank1", "bank2", "mode", "romb", "romlo", "romhi",
 
 
 def tasks(ctx):
-    return filter_tasks(mc.mbc_rw_tasks(ctx, keep=mc.keep_labels(LABELS | {"open"})) + mc.prepare_tasks(ctx, ("memory.prepareROM",)))
+    return filter_tasks(mc.mbc_rw_tasks(ctx, keep=mc.keep_labels(LABELS | {"open"})) + mc.prepare_tasks(ctx, ("memory.prepareROM",)) + mc.constructor_tasks(ctx) +
+                        [LemmaTask("lemma:controller", lambda c, e, ce: wr.controller_lemma(c, e, ce, two=False), ["memory.newMBC"])])
 
 
 def run(tier, seed):
